@@ -2515,12 +2515,13 @@ package go_clipper2
 //@   ensures [heading] horz.bot.X != horz.top.X ==> result2 == (horz.curX < horz.top.X)
 
 //@ func setOwner
-//@   props C04 C03
+//@   props C04 C03 C01 C02
 //@   nosafety
 //@   assumes outrec != nil && newOwner != nil && outrec != newOwner
-//@   loop 0 invariant [walk] true
-//@   loop 1 invariant [walk] true
+//@   loop 0 invariant [a-live-direct-owner-is-kept] ((old(newOwner.owner) == outrec && outrec.pts != nil) ==> newOwner.owner == outrec) && forallp(r, OutRec, r != newOwner ==> r.owner == old(r.owner))
+//@   loop 1 invariant [walk] ((old(newOwner.owner) == outrec && outrec.pts != nil) ==> ((tmp == newOwner || tmp == outrec) && newOwner.owner == outrec)) && outrec.owner == old(outrec.owner)
 //@   ensures [owner-set] outrec.owner == newOwner
+//@   ensures [a-two-ring-ownership-cycle-is-broken-by-handing-the-new-owner-the-old-owner-of-the-ring] (old(newOwner.owner) == outrec && outrec.pts != nil) ==> newOwner.owner == old(outrec.owner)
 
 // cleanCollinear (C02): a vertex leaves an output ring only if it repeats a neighbour or is collinear with
 // its neighbours, and a vertex the scan passes over differs from both neighbours - so when the scan completes a
